@@ -35,7 +35,7 @@ Explains(S1, ev) ==
           ELSE (Run.store = "simple" /\ ev.status = "end") \/ SameSeq(S1.regs, ev.regs))     \* Simple drains its operand Vec at the end
       /\ SameSeq(S1.vals, ev.vals)
       /\ Len(S1.frames) = Len(ev.frames) /\ (\A i \in DOMAIN ev.frames : S1.frames[i].ret = ev.frames[i])
-      /\ Len(S1.log) = ev.calls)
+      /\ ("host" \notin DOMAIN Obs[c] \/ Len(S1.log) = ev.calls))      \* host calls are recorded only when the case installs a scripted host
 Adopt(S1, ev) == IF ev.status = "err" THEN S1 ELSE [S1 EXCEPT !.regs = IF Run.store = "simple" /\ ev.status = "end" THEN S1.regs ELSE ev.regs, !.vals = ev.vals, !.loose = FALSE]
 
 StepEvent ==
